@@ -21,6 +21,10 @@ def number(rng, cfg) -> str:
         return rng.choice(["0.5", "1.5", "2.5", "0.25", "3.75", "10.0", "0.1", "7.2", ".5", "4."])
     if r < 0.94:
         return "0"
+    if r < 0.95 and cfg.get("long_literals", False):
+        # very long literals: beyond the float range / beyond what fits a machine word
+        digits = "".join(rng.choice("0123456789") for _ in range(rng.choice([25, 60, 320, 420])))
+        return digits.lstrip("0") + rng.choice(["", "", ".0", ".5", "."]) or "7"
     if r < 0.97 and cfg.get("floats", True):
         # magnitudes at which float formatting changes style
         # (no huge decimals: util.factor loops up to sqrt(value), which is a cost, not a property)
